@@ -153,27 +153,40 @@ class Repo:
             except SyntaxError:
                 continue
             self.reference[name] = ref
+            # `a, b, c = (f(v) for v in (x, y, z))` is read as the three assignments written out (sa/unroll.py)
+            try:
+                from .unroll import unroll_in_function
+
+                for q, fi in m.funcs.items():
+                    if "<locals>" not in q and unroll_in_function(fi.node):
+                        self.inlined.setdefault(f"{name}.{q}", []).append("comprehension over a literal tuple unpacked into single assignments")
+            except Exception as ex:  # a reading aid; without it the rules see the statement as written
+                self.inlined[f"{name}.<unroll-error>"] = [repr(ex)]
             # undo "extract function": inline helpers that the reference does not have (sa/inline.py)
             try:
                 from .inline import inline_in_function
 
-                new_top = {q: f.node for q, f in m.funcs.items() if "." not in q and q not in ref.funcs}
+                def plain(f: FuncInfo) -> bool:
+                    # a decorated helper (lru_cache, cache, ...) is not equivalent to its body: never inline it
+                    return all(d in ("staticmethod", "classmethod") for d in f.decorators)
+
+                new_top = {q: f.node for q, f in m.funcs.items() if "." not in q and q not in ref.funcs and plain(f)}
                 for q, fi in list(m.funcs.items()):
                     if "<locals>" in q or q not in ref.funcs:
                         continue
                     helpers = dict(new_top)
                     if fi.cls is not None:
                         for q2, f2 in m.funcs.items():
-                            if q2.startswith(fi.cls.name + ".") and q2.count(".") == 1 and q2 not in ref.funcs:
+                            if q2.startswith(fi.cls.name + ".") and q2.count(".") == 1 and q2 not in ref.funcs and plain(f2):
                                 helpers[f2.node.name] = f2.node
                     for q2, f2 in m.funcs.items():
-                        if q2.startswith(q + ".<locals>.") and q2 not in ref.funcs:
+                        if q2.startswith(q + ".<locals>.") and q2 not in ref.funcs and plain(f2):
                             helpers[f2.node.name] = f2.node
                     if helpers:
                         log: List[str] = []
                         inline_in_function(fi.node, helpers, fi.cls.name if fi.cls is not None else None, log)
                         if log:
-                            self.inlined[f"{name}.{q}"] = log
+                            self.inlined.setdefault(f"{name}.{q}", []).extend(log)
             except Exception as ex:  # inlining is an aid; without it the rules see the calls
                 self.inlined[f"{name}.<error>"] = [repr(ex)]
             for q, fi in m.funcs.items():
